@@ -147,11 +147,18 @@ fn judge_run(ctx: &Ctx, rec: &mut Rec, g: &Gadget, inp: &Inp, class: &str) {
             return;
         }
     };
-    rec.event(format!("synthesise {name} on {class}"));
+    // the optimisation goal of the constraint system is a configuration of the circuit too: half of the cases
+    // use the default (Constraints), a quarter each Weight and None
+    let goal = [0u8, 0, 1, 2][(crate::mon::h64(&(name, class, format!("{:?}", inp_json(inp)))) % 4) as usize];
+    rec.class(["goal:Constraints", "goal:Weight", "goal:None"][goal as usize]);
+    rec.event(format!("synthesise {name} on {class} (goal {goal})"));
     let res = guarded(|| {
+        crate::r1::GOAL.with(|gl| gl.set(goal));
         let run = execute(g, &inp2, false);
+        crate::r1::GOAL.with(|gl| gl.set(0));
         (run.synth_ok, run.synth_err, run.satisfied, run.out, run.ncons)
     });
+    crate::r1::GOAL.with(|gl| gl.set(0));
     let (synth_ok, synth_err, sat, out, ncons) = match res {
         Ok(r) => r,
         Err(pn) => {
